@@ -1,18 +1,17 @@
 import Irismod.Props.C06
 open Irismod Irismod.Sdk Irismod.Farm Irismod.Spec Irismod.Spec.C06 Irismod.Props.C06 Irismod.Proofs.Farm
-#print axioms conserved_partial
-#print axioms refund_once_partial
+#print axioms conserved_run
+#print axioms refund_once_run
 #print axioms refund_pays_remaining
 #print axioms release_exact
 #print axioms budget_step
-#print axioms budget_partial
-#print axioms budget_can_fail
+#print axioms budget_run
 #print axioms payout_step_bound
-#print axioms fair_partial
-#print axioms fairQ_partial
+#print axioms fair_run
+#print axioms fairQ_run
 #print axioms harvest_independence
 #print axioms release_truncation
--- non-vacuity: the (Clean) F-farm-1 history releases rewards (rule.released = 2 of total 100, remaining 98), books three
+-- non-vacuity: the F-farm-1 history releases rewards (rule.released = 2 of total 100, remaining 98), books three
 -- interactions of A1 with a positive payout, and a destroy afterwards refunds the remaining 98 exactly once
 #eval s!"nonvacuous {
   let s := run w1Genesis w1Ops
